@@ -108,7 +108,7 @@ Record st := {
   sid : option str          (* _site_id *)
 }.
 Definition st0 : st := {| urls := []; opened := 0; closed := 0; tok := None; sid := None |}.
-Definition nreq (s : st) : nat := length (urls s).
+Definition nreq (s : st) : nat := List.length (urls s).
 
 Definition log (e : bool * str) (s : st) : st :=
   {| urls := urls s ++ [e]; opened := opened s; closed := closed s; tok := tok s; sid := sid s |}.
@@ -320,7 +320,7 @@ Definition not_dot (c : N) : bool := negb (N.eqb c DOT).
 Definition has_char (c : N) (x : str) : bool := existsb (N.eqb c) x.
 
 (* x.ljust(6, "0") *)
-Definition ljust6 (x : str) : str := x ++ repeat ZERO (6 - length x).
+Definition ljust6 (x : str) : str := x ++ repeat ZERO (6 - List.length x).
 
 (* the string _parse_iso_datetime hands to datetime.fromisoformat (repaired version: the fraction is
    cut/padded to six digits instead of being dropped) *)
@@ -599,11 +599,11 @@ Definition server_wf (E : env) (site : str) (drive : option str) (P : paging) (T
 (* fuel that suffices for walking a folder *)
 Fixpoint need_node (P : paging) (n : node) : nat :=
   match n with
-  | Folder _ i ch => 2 + length (P i) + list_sum (map (need_node P) ch)
+  | Folder _ i ch => 2 + List.length (P i) + list_sum (map (need_node P) ch)
   | _ => 0
   end.
 Definition need (P : paging) (oid : option str) (ch : list node) : nat :=
-  2 + length (P oid) + list_sum (map (need_node P) ch).
+  2 + List.length (P oid) + list_sum (map (need_node P) ch).
 
 (* fault kinds of the property: HTTP error, network error, non-2xx status without exception,
    undecodable body, syntactically broken JSON, JSON that is not an object *)
